@@ -311,7 +311,27 @@ func pullSingleRepo(
 		if err != nil {
 			return fmt.Errorf("can't get merge head ref: %v", err)
 		}
-		if err = ref.SaveRef(rs, name, sum, c.User.Name, c.User.Email, "pull", "created from "+mergeHeads[0], nil); err != nil {
+		action := "created from " + mergeHeads[0]
+		// The name may have failed to resolve although the branch exists (fetch
+		// and push accept names that InterpretCommitName does not, "v1.0" for
+		// one). Such a branch is not new: it only moves forward.
+		if oldSum, err := ref.GetRef(rs, name); err == nil {
+			if bytes.Equal(oldSum, sum) {
+				if updatesCh == nil {
+					cmd.Println("Already up to date.")
+				}
+				return nil
+			}
+			fastForward, err := ref.IsAncestorOf(db, oldSum, sum)
+			if err != nil {
+				return err
+			}
+			if !fastForward {
+				return fmt.Errorf("can't merge %s into %q: not a fast-forward, and %q is not a name a merge can be made for", mergeHeads[0], name, args[0])
+			}
+			action = "fast-forward"
+		}
+		if err = ref.SaveRef(rs, name, sum, c.User.Name, c.User.Email, "pull", action, nil); err != nil {
 			return err
 		}
 		update := fmt.Sprintf("[%s %s] %s", strings.TrimPrefix(name, "heads/"), hex.EncodeToString(sum)[:7], com.Message)
